@@ -277,6 +277,11 @@ impl<Key> AdmissionPolicy<Key>
         *self.cache_weight.verif_weight_used_lock().read()
     }
 
+    /// `None` while the lock of `weight_used` is taken.
+    pub(crate) fn verif_try_weight_used(&self) -> Option<Weight> {
+        self.cache_weight.verif_weight_used_lock().try_read().map(|guard| *guard)
+    }
+
     pub(crate) fn verif_buffer_queue_len(&self) -> usize {
         self.sender.len()
     }
